@@ -512,7 +512,8 @@ def case_elbo_re(ck, rng, bad, with_cl=False):
 
 def case(ck, i):
     rng = ck.rng()
-    fam = pick(rng, ["lanczos"] * 3 + ["slq"] * 3 + ["elbo_re"] * 3 + ["elbo_cl"] * 2)
+    fams = ["lanczos"] * 3 + ["slq"] * 3 + ["elbo_re"] * 3 + ["elbo_cl"] * 2
+    fam = fams[(i * 4 + int(ck.rng(777).integers(0, len(fams)))) % len(fams)]      # round-robin
     bad = Bad(ck)
     if fam == "lanczos":
         case_lanczos(ck, rng, bad)
